@@ -121,8 +121,11 @@ static void *s_par_acquire(struct aws_allocator *a, size_t size) {
     pthread_mutex_unlock(&s_par_mu);
     return p;
 }
+static __thread size_t s_par_calloc_num, s_par_calloc_size; /* what the wrapped allocator's mem_calloc was last asked */
 static void *s_par_calloc(struct aws_allocator *a, size_t num, size_t size) {
     (void)a;
+    s_par_calloc_num = num;
+    s_par_calloc_size = size;
     pthread_mutex_lock(&s_par_mu);
     void *p = s_par_acquire_locked(num * size, 0);
     pthread_mutex_unlock(&s_par_mu);
@@ -377,6 +380,8 @@ static size_t s_eff_frames;
 static struct {
     void *p;
     size_t size;
+    int kind; /* entry point the block came through last: 0 acquire, 1 calloc, 2 realloc */
+    bool moved; /* the last realloc answered with another address */
 } s_ids[MAXID];
 static size_t s_depth;
 
@@ -417,7 +422,7 @@ static void s_emit_stat(void) {
         s_decoy_calls = 0;
     }
     if (s_par_bad_old) {
-        printf("P MONITOR wrapped allocator got %ld realloc request(s) with an altered old size\n", s_par_bad_old);
+        printf("P MONITOR wrapped allocator got %ld realloc/calloc request(s) with altered arguments\n", s_par_bad_old);
         s_par_bad_old = 0;
     }
     printf("%s bytes=%zu count=%zu\n", s_pfx, aws_mem_tracer_bytes(s_tr), aws_mem_tracer_count(s_tr));
@@ -528,6 +533,7 @@ static bool s_refused(const struct op *o) {
     }
 }
 
+static bool s_main_active, s_in_inj, s_armed, s_fired; /* (defined with the injection machinery below) */
 static void s_emit_dump(void) {
     if (!s_sink.have_hdr) {
         printf("%s dump none\n", s_pfx);
@@ -568,6 +574,21 @@ static void s_emit_dump(void) {
                 sum,
                 s_sink.n);
         }
+        {
+            /* blocks that came through different entry points (acquire / calloc / realloc) were allocated from
+             * different call stacks: the dump must list at least that many stacks */
+            bool seen[3] = {false, false, false};
+            size_t kinds = 0;
+            for (size_t i = 0; i < MAXID; ++i) {
+                if (s_ids[i].p && !seen[s_ids[i].kind]) {
+                    seen[s_ids[i].kind] = true;
+                    ++kinds;
+                }
+            }
+            if (!s_in_inj && !s_fired && s_eff_frames >= 8 && s_sink.nstack_lines < kinds) {
+                printf("P MONITOR dump lists %zu stack(s) for allocations made from %zu different entry points\n", s_sink.nstack_lines, kinds);
+            }
+        }
         if (s_sink.order_bad) {
             printf("P MONITOR dump lists %zu stack(s) out of order (by bytes / by count must be descending)\n", s_sink.order_bad);
         }
@@ -587,14 +608,20 @@ static void s_call(const struct op *o) {
             c.a = o->a;
             s_deep(s_depth, &c);
             s_ids[o->id].p = c.p;
+            s_ids[o->id].kind = 0;
             s_ids[o->id].size = o->a;
             break;
         case OP_CAL:
             c.kind = 1;
             c.a = o->a;
             c.b = o->b;
+            s_par_calloc_num = s_par_calloc_size = 0;
             s_deep(s_depth, &c);
+            if (s_parent->mem_calloc && (s_par_calloc_num != o->a || s_par_calloc_size != o->b)) {
+                ++s_par_bad_old; /* reported as an altered request */
+            }
             s_ids[o->id].p = c.p;
+            s_ids[o->id].kind = 1;
             s_ids[o->id].size = o->a * o->b;
             break;
         case OP_RE:
@@ -605,7 +632,9 @@ static void s_call(const struct op *o) {
             s_keep = o->keep;
             s_deep(s_depth, &c);
             s_keep = false;
+            s_ids[o->id].moved = c.p != s_ids[o->id].p;
             s_ids[o->id].p = c.p;
+            s_ids[o->id].kind = 2;
             s_ids[o->id].size = o->a;
             HC_CHECK((o->a == 0) == (c.p == NULL));
             break;
@@ -631,9 +660,15 @@ static void s_call(const struct op *o) {
 /* phase 2: its result lines, with the current prefix */
 static void s_print(const struct op *o) {
     switch (o->k) {
+        case OP_RE:
+            s_emit_blk(s_ids[o->id].p, s_ids[o->id].size);
+            if (s_ids[o->id].p) {
+                printf("W%s moved=%d\n", s_pfx + 1, (int)s_ids[o->id].moved);
+            }
+            s_emit_stat();
+            break;
         case OP_ACQ:
         case OP_CAL:
-        case OP_RE:
             s_emit_blk(s_ids[o->id].p, s_ids[o->id].size);
             s_emit_stat();
             break;
@@ -699,6 +734,7 @@ static void s_point(int kind, bool inside) {
     static struct sink save_sink;
     save_sink = s_sink;
     bool save_keep = s_keep;
+    size_t save_cn = s_par_calloc_num, save_cs = s_par_calloc_size;
     s_pfx = "P @inj";
     if (s_refused(&s_inj_op)) {
         printf("P @inj refused\n");
@@ -709,6 +745,8 @@ static void s_point(int kind, bool inside) {
     s_pfx = save_pfx;
     s_sink = save_sink;
     s_keep = save_keep;
+    s_par_calloc_num = save_cn;
+    s_par_calloc_size = save_cs;
     s_in_inj = false;
 }
 
